@@ -9,8 +9,9 @@
 -/
 import I3.Model.FFInverse
 import I3.Lemmas.LimbsField
+import Mathlib.Data.Nat.GCD.Basic
 namespace I3.InvLoop
-open I3.Word I3.Gen.FFInv I3.Limbs
+open I3.Word I3.Gen.FFInv I3.Limbs I3.Model.FFInverse
 
 -- `W` is the word modulus of I3.Exec.Word (inside `namespace I3` a bare `W` would resolve to the
 -- equal but distinct constant `I3.W` of I3.Exec.Field)
@@ -240,5 +241,188 @@ theorem seg1_tail (carry r0 r1 r2 r3 s0 s1 s2 s3 u0 u1 u2 u3 v0 v1 v2 v3 : Nat) 
         fun bigger borrow z0 z1 z2 z3 => by seg1_eval d0 d1 d2 d3 v0 v1 v2 v3⟩
     · exact ⟨_, j3, carry, t0, t1, t2, t3, s0, s1, s2, s3, d0, d1, d2, d3, v0, v1, v2, v3,
         fun bigger borrow z0 z1 z2 z3 => by seg1_eval d0 d1 d2 d3 v0 v1 v2 v3⟩
+
+/-! ## 2. value level -/
+
+theorem halve_compose (S S1 S' k : Nat) (h1 : (2 * S1) % Q = S) (h2 : (2 ^ k * S') % Q = S1) :
+    (2 ^ (k + 1) * S') % Q = S := by
+  rw [← h1, ← h2, Nat.mul_mod_mod, pow_succ, Nat.mul_comm (2 ^ k) 2, Nat.mul_assoc]
+
+theorem odd_two_pow_mul (a n : Nat) (h : (2 ^ a * n) % 2 = 1) : a = 0 := by
+  rcases a with _ | a
+  · rfl
+  · exfalso
+    have : 2 ^ (a + 1) * n = 2 * (2 ^ a * n) := by rw [pow_succ, Nat.mul_comm (2 ^ a) 2, Nat.mul_assoc]
+    omega
+
+/-- halving both sides of `x·S ≡ V·K` -/
+theorem cong_halve (X V V' S S' k : Nat) (KK : ZMod Q) (hV : V = 2 ^ k * V') (hS : (2 ^ k * S') % Q = S)
+    (h : (X : ZMod Q) * S = V * KK) : (X : ZMod Q) * S' = V' * KK := by
+  have hS' : ((2 ^ k * S' : ℕ) : ZMod Q) = (S : ZMod Q) := by rw [← hS, ZMod.natCast_mod]
+  subst hV
+  push_cast at h hS'
+  have h2 : (2 : ZMod Q) ^ k ≠ 0 := pow_ne_zero _ two_ne_zero
+  apply mul_left_cancel₀ h2
+  linear_combination h + (X : ZMod Q) * hS'
+
+/-- subtracting `x·Rr ≡ U·K` from `x·S ≡ V·K` -/
+theorem cong_sub (X U V V' Rr S S' : Nat) (KK : ZMod Q) (hV : V' + U = V) (hS : (S' + Rr) % Q = S)
+    (h1 : (X : ZMod Q) * S = V * KK) (h2 : (X : ZMod Q) * Rr = U * KK) : (X : ZMod Q) * S' = V' * KK := by
+  have hS' : ((S' + Rr : ℕ) : ZMod Q) = (S : ZMod Q) := by rw [← hS, ZMod.natCast_mod]
+  subst hV
+  push_cast at h1 hS'
+  linear_combination h1 - h2 + (X : ZMod Q) * hS'
+
+theorem coprime_halve_right (U V V' k : Nat) (hV : V = 2 ^ k * V') (h : Nat.Coprime U V) : Nat.Coprime U V' :=
+  Nat.Coprime.coprime_dvd_right (Dvd.intro_left _ hV.symm) h
+
+theorem coprime_sub_right (U V V' : Nat) (hV : V' + U = V) (h : Nat.Coprime U V) : Nat.Coprime U V' := by
+  subst hV
+  exact (Nat.coprime_add_self_right).1 h
+
+/-- the termination measure: the product, doubled while both are odd -/
+def mu (U V : Nat) : Nat := U * V * (if U % 2 = 1 ∧ V % 2 = 1 then 2 else 1)
+
+theorem mu_pos (U V : Nat) (hU : 0 < U) (hV : 0 < V) : 0 < mu U V := by
+  unfold mu
+  split <;> positivity
+
+theorem mu_ge (U V U1 V1 a b : Nat) (hU : U = 2 ^ a * U1) (hV : V = 2 ^ b * V1)
+    (hU1 : U1 % 2 = 1) (hV1 : V1 % 2 = 1) : 2 * (U1 * V1) ≤ mu U V := by
+  have pa : 1 ≤ 2 ^ a := Nat.one_le_two_pow
+  have pb : 1 ≤ 2 ^ b := Nat.one_le_two_pow
+  have hUle : U1 ≤ U := by rw [hU]; exact Nat.le_mul_of_pos_left _ pa
+  have hVle : V1 ≤ V := by rw [hV]; exact Nat.le_mul_of_pos_left _ pb
+  unfold mu
+  by_cases hc : U % 2 = 1 ∧ V % 2 = 1
+  · rw [if_pos hc, Nat.mul_comm _ 2]
+    exact Nat.mul_le_mul_left _ (Nat.mul_le_mul hUle hVle)
+  · rw [if_neg hc, Nat.mul_one]
+    rcases a with _ | a
+    · rcases b with _ | b
+      · exfalso; apply hc; simp only [pow_zero, Nat.one_mul] at hU hV; subst hU hV; exact ⟨hU1, hV1⟩
+      · have : V = 2 * (2 ^ b * V1) := by rw [hV, pow_succ, Nat.mul_comm (2 ^ b) 2, Nat.mul_assoc]
+        have h1 : V1 ≤ 2 ^ b * V1 := Nat.le_mul_of_pos_left _ Nat.one_le_two_pow
+        rw [this, Nat.mul_left_comm U 2]
+        exact Nat.mul_le_mul_left _ (Nat.mul_le_mul hUle h1)
+    · have : U = 2 * (2 ^ a * U1) := by rw [hU, pow_succ, Nat.mul_comm (2 ^ a) 2, Nat.mul_assoc]
+      have h1 : U1 ≤ 2 ^ a * U1 := Nat.le_mul_of_pos_left _ Nat.one_le_two_pow
+      rw [this, Nat.mul_assoc]
+      exact Nat.mul_le_mul_left _ (Nat.mul_le_mul h1 hVle)
+
+/-- after a subtraction of two odd numbers the measure is the plain product -/
+theorem mu_sub (U1 V1 V2 : Nat) (hU1 : U1 % 2 = 1) (hV1 : V1 % 2 = 1) (hV : V2 + U1 = V1) (hpos : 0 < U1) :
+    mu U1 V2 = U1 * V2 ∧ mu V2 U1 = U1 * V2 ∧ U1 * V2 < U1 * V1 := by
+  have hev : ¬ V2 % 2 = 1 := by omega
+  refine ⟨?_, ?_, ?_⟩
+  · unfold mu; rw [if_neg (fun h => hev h.2), Nat.mul_one]
+  · unfold mu; rw [if_neg (fun h => hev h.1), Nat.mul_one, Nat.mul_comm]
+  · exact Nat.mul_lt_mul_of_pos_left (by omega) hpos
+
+
+/-! ## 3. the fuel skeleton -/
+
+def Uv (st : St) : Nat := val4 st.u0 st.u1 st.u2 st.u3
+def Vv (st : St) : Nat := val4 st.v0 st.v1 st.v2 st.v3
+def Rv (st : St) : Nat := val4 st.r0 st.r1 st.r2 st.r3
+def Sv (st : St) : Nat := val4 st.s0 st.s1 st.s2 st.s3
+
+/-- all sixteen working words are words -/
+structure Limbs (st : St) : Prop where
+  r0 : st.r0 < W
+  r1 : st.r1 < W
+  r2 : st.r2 < W
+  r3 : st.r3 < W
+  s0 : st.s0 < W
+  s1 : st.s1 < W
+  s2 : st.s2 < W
+  s3 : st.s3 < W
+  u0 : st.u0 < W
+  u1 : st.u1 < W
+  u2 : st.u2 < W
+  u3 : st.u3 < W
+  v0 : st.v0 < W
+  v1 : st.v1 < W
+  v2 : st.v2 < W
+  v3 : st.v3 < W
+
+theorem half_lt_pow (V V1 f : Nat) (h : 2 * V1 + 0 = V) (hf : V < 2 ^ (f + 1)) : V1 < 2 ^ f := by
+  rw [pow_succ] at hf; omega
+
+/-- the `v` loop: strips the powers of two from `v`, halving `s` modulo `q` as often -/
+theorem loopV_spec : ∀ (f : Nat) (st : St), Limbs st → Sv st < Q → 0 < Vv st → Vv st < 2 ^ f →
+    ∃ st', loopV f st = some st' ∧ Limbs st' ∧ Sv st' < Q ∧ Uv st' = Uv st ∧ Rv st' = Rv st ∧
+      Vv st' % 2 = 1 ∧ ∃ k, Vv st = 2 ^ k * Vv st' ∧ (2 ^ k * Sv st') % Q = Sv st := by
+  intro f
+  induction f with
+  | zero => intro st _ _ h0 h1; omega
+  | succ f ih =>
+    intro st hl hS h0 hf
+    by_cases hc : Vv st % 2 = 0
+    · obtain ⟨c', s0', s1', s2', s3', v0', v1', v2', v3', hb, b0, b1, b2, b3, b4, b5, b6, b7, hv, hs1, hs2⟩ :=
+        loop1_body_ok st.carry st.s0 st.s1 st.s2 st.s3 st.v0 st.v1 st.v2 st.v3
+          hl.s0 hl.s1 hl.s2 hl.s3 hl.v0 hl.v1 hl.v2 hl.v3 hS
+      have hcond := (loop1_cond_iff st.carry st.s0 st.s1 st.s2 st.s3 st.v0 st.v1 st.v2 st.v3).2 hc
+      have hstep : loopV (f + 1) st = loopV f
+          { st with
+            carry := c', s0 := s0', s1 := s1', s2 := s2', s3 := s3',
+            v0 := v0', v1 := v1', v2 := v2', v3 := v3' } := by
+        rw [loopV, if_pos hcond, hb]
+      have hv0 : st.v0 % 2 = 0 := by rw [← val4_mod2 st.v0 st.v1 st.v2 st.v3]; exact hc
+      rw [hv0] at hv
+      obtain ⟨st', h1, hl', hS', hU', hR', hodd, k, hk1, hk2⟩ :=
+        ih
+          { st with
+            carry := c', s0 := s0', s1 := s1', s2 := s2', s3 := s3',
+            v0 := v0', v1 := v1', v2 := v2', v3 := v3' }
+          ⟨hl.r0, hl.r1, hl.r2, hl.r3, b0, b1, b2, b3, hl.u0, hl.u1, hl.u2, hl.u3, b4, b5, b6, b7⟩
+          hs1 (by show 0 < val4 v0' v1' v2' v3'; unfold Vv at h0; omega) (half_lt_pow _ _ _ hv hf)
+      refine ⟨st', hstep.trans h1, hl', hS', hU', hR', hodd, k + 1, ?_, halve_compose _ _ _ _ hs2 hk2⟩
+      show val4 st.v0 st.v1 st.v2 st.v3 = _
+      rw [← hv, pow_succ, Nat.mul_assoc, Nat.mul_comm (2 ^ k), Nat.mul_assoc, Nat.add_zero]
+      congr 1
+      rw [Nat.mul_comm]; exact hk1
+    · have hcond : ¬ Inverse_loop1_cond st.carry st.s0 st.s1 st.s2 st.s3 st.v0 st.v1 st.v2 st.v3 = true :=
+        fun h => hc ((loop1_cond_iff _ _ _ _ _ _ _ _ _).1 h)
+      refine ⟨st, by rw [loopV, if_neg hcond], hl, hS, rfl, rfl, by omega, 0, by simp, by
+        simp [Nat.mod_eq_of_lt hS]⟩
+
+/-- the `u` loop: the same for `u` and `r` -/
+theorem loopU_spec : ∀ (f : Nat) (st : St), Limbs st → Rv st < Q → 0 < Uv st → Uv st < 2 ^ f →
+    ∃ st', loopU f st = some st' ∧ Limbs st' ∧ Rv st' < Q ∧ Vv st' = Vv st ∧ Sv st' = Sv st ∧
+      Uv st' % 2 = 1 ∧ ∃ k, Uv st = 2 ^ k * Uv st' ∧ (2 ^ k * Rv st') % Q = Rv st := by
+  intro f
+  induction f with
+  | zero => intro st _ _ h0 h1; omega
+  | succ f ih =>
+    intro st hl hS h0 hf
+    by_cases hc : Uv st % 2 = 0
+    · obtain ⟨c', s0', s1', s2', s3', v0', v1', v2', v3', hb, b0, b1, b2, b3, b4, b5, b6, b7, hv, hs1, hs2⟩ :=
+        loop1_body_ok st.carry st.r0 st.r1 st.r2 st.r3 st.u0 st.u1 st.u2 st.u3
+          hl.r0 hl.r1 hl.r2 hl.r3 hl.u0 hl.u1 hl.u2 hl.u3 hS
+      have hcond := (loop1_cond_iff st.carry st.r0 st.r1 st.r2 st.r3 st.u0 st.u1 st.u2 st.u3).2 hc
+      have hstep : loopU (f + 1) st = loopU f
+          { st with
+            carry := c', r0 := s0', r1 := s1', r2 := s2', r3 := s3',
+            u0 := v0', u1 := v1', u2 := v2', u3 := v3' } := by
+        rw [loopU, loop2_cond_eq, if_pos hcond, loop2_body_eq, hb]
+      have hv0 : st.u0 % 2 = 0 := by rw [← val4_mod2 st.u0 st.u1 st.u2 st.u3]; exact hc
+      rw [hv0] at hv
+      obtain ⟨st', h1, hl', hS', hU', hR', hodd, k, hk1, hk2⟩ :=
+        ih
+          { st with
+            carry := c', r0 := s0', r1 := s1', r2 := s2', r3 := s3',
+            u0 := v0', u1 := v1', u2 := v2', u3 := v3' }
+          ⟨b0, b1, b2, b3, hl.s0, hl.s1, hl.s2, hl.s3, b4, b5, b6, b7, hl.v0, hl.v1, hl.v2, hl.v3⟩
+          hs1 (by show 0 < val4 v0' v1' v2' v3'; unfold Uv at h0; omega) (half_lt_pow _ _ _ hv hf)
+      refine ⟨st', hstep.trans h1, hl', hS', hU', hR', hodd, k + 1, ?_, halve_compose _ _ _ _ hs2 hk2⟩
+      show val4 st.u0 st.u1 st.u2 st.u3 = _
+      rw [← hv, pow_succ, Nat.mul_assoc, Nat.mul_comm (2 ^ k), Nat.mul_assoc, Nat.add_zero]
+      congr 1
+      rw [Nat.mul_comm]; exact hk1
+    · have hcond : ¬ Inverse_loop1_cond st.carry st.r0 st.r1 st.r2 st.r3 st.u0 st.u1 st.u2 st.u3 = true :=
+        fun h => hc ((loop1_cond_iff _ _ _ _ _ _ _ _ _).1 h)
+      refine ⟨st, by rw [loopU, loop2_cond_eq, if_neg hcond], hl, hS, rfl, rfl, by omega, 0, by simp, by
+        simp [Nat.mod_eq_of_lt hS]⟩
 
 end I3.InvLoop
